@@ -771,7 +771,8 @@ func (e *Engine) lemmaQuery(l *Lemma) (q string, err error) {
 			case Unsupported:
 				err = fmt.Errorf("%s", x.msg)
 			default:
-				panic(r)
+				// lemmas are proved without a function context: a lemma that reads the heap is outside what this supports
+				err = fmt.Errorf("lemma %s cannot be evaluated without a function context (heap reads are not supported in lemmas): %v", l.Name, r)
 			}
 		}
 	}()
